@@ -65,6 +65,9 @@ func genC12(seed uint64, idx int, tier string) *Scenario {
 	}
 	credCfg := fmt.Sprintf("credentials=[%s]", strings.Join(q, ","))
 	nconn := r.Range(1, 2)
+	if r.Chance(0.15) {
+		nconn = 3
+	}
 	switch svc {
 	case "ssh":
 		sc.Config = baseConfig + fmt.Sprintf("\n[service.s]\ntype=\"ssh-simulator\"\n%s\n\n[[port]]\nport=\"tcp/22\"\nservices=[\"s\"]\n", credCfg)
@@ -161,6 +164,12 @@ func genC12(seed uint64, idx int, tier string) *Scenario {
 	}
 	sc.Class = fmt.Sprintf("%s conns=%d creds=%d", svc, nconn, len(creds))
 	sc.Schedule = r.Schedule(64)
+	if nconn > 1 && r.Chance(0.35) {
+		// history: the first connection runs to its end (it leaves without unbind / QUIT) before the second one
+		// even connects - what the first one achieved must not be inherited
+		sc.Schedule = nil
+		sc.Class += " sequential"
+	}
 	sc.DrainMs = 1000
 	return sc
 }
